@@ -276,6 +276,9 @@ def residue(cfg):
         A.append(mk('RxFrame', t=t, kind='hdr', ty='BINARY_EVENT', ns='/',
                     id=-1, ev='e_v', n=2))
         A.append(mk('RxFrame', t=t, kind='att', b='b1'))
+        # ... and callbacks that WERE answered before the client left
+        for ns in cfg['ns_all']:
+            A.append(mk('RxAck', t=t, ns=ns, id=1, args=['v1']))
     for ns in cfg['ns_api']:
         for s in S:
             A.append(mk('Emit', ns=ns, toKind='one', to=[s], skipKind='none',
